@@ -4,7 +4,7 @@ their reference, with a unified diff of the two canonical forms.   usage: tools/
 import ast, sys, pathlib, difflib, importlib.util
 HERE = pathlib.Path(__file__).resolve().parents[1]
 sys.path.insert(0, str(HERE))
-spec = importlib.util.spec_from_file_location("bf", HERE / "tools" / "benign_fuzz.py"); bf = importlib.util.module_from_spec(spec); spec.loader.exec_module(bf)
+from pvx import variants as bf
 from pvx.core import canon
 from pvx.core.source import strip_inert, normalise_if_polarity
 rel, kind = sys.argv[1], sys.argv[2]
